@@ -1,13 +1,15 @@
 (** Property C08 — BioConsert returns a local optimum of the Kemeny score.
-    Status (PARTIAL): the jitted kernels are modelled faithfully (difference arrays, the two scans with
-    in-place prefix sums, the two renumbering kernels, the sweep loop) and agree with the library on every
-    starting vector explored; the link "model returns r' => r' is a local optimum" is not a theorem in this
-    version.  What is proved: the test [local_opt] run on EVERY ranking BioConsert returns is sound (it
-    bounds the score of every single-element move, into every existing bucket and into a new bucket at every
-    position), the ranking it speaks about is the returned one (same order, same ties), and the prefix-sum
-    lemma of the [change] array (the accumulated value at bucket b is the true score variation). *)
+    Status: proved on the model.  The jitted kernels are modelled faithfully (difference arrays, the two scans
+    with in-place prefix sums, the two renumbering kernels, the sweep loop; model = library on every starting
+    vector explored) and the model is proved correct: the arrays filled by [_compute_delta_costs] are the
+    difference arrays of the true score variations, each search returns the first improving bucket / position
+    (right then left) or -1 exactly when nothing improves by more than the threshold, each move realises the
+    intended single-element move and keeps the numbering dense, every accepted move lowers the true score by
+    the recorded delta, the loop terminates, and its result passes the test [local_opt], which is sound: no
+    single-element move (into an existing bucket or a new bucket at any position) improves the score of the
+    returned ranking by more than the threshold ([C08_bio_one], [C08_bioconsert_local_optimum]). *)
 From Corankco Require Import Prelude Scheme Rank KemenySpec CostTable OptTheory Markov Borda BioConsert BioDelta
-     Judge.JBio BioProof.
+     Judge.JBio BioProof BioMoves BioArrays BioLoop BioAlgo.
 Local Open Scope Z_scope.
 
 Theorem C08_local_opt_sound : forall K n r thr,
@@ -25,14 +27,59 @@ Proof. exact base_ranking_order. Qed.
 Print Assumptions C08_base_ranking_order.
 
 (** the difference array: accumulated change over (b0, b] resp. [b, b0) = variation of the score *)
-Theorem C08_change_prefix_right_partial : forall bef aft tie r others b0,
+Theorem C08_change_prefix_right : forall bef aft tie r others b0,
   (forall e, In e others -> 0 <= r e) -> 0 <= b0 -> forall k : nat,
   rsum (b0 + 1) (S k) (change bef aft tie r others b0) = delta_join bef aft tie r others b0 (b0 + 1 + Z.of_nat k).
 Proof. exact change_prefix_right. Qed.
-Print Assumptions C08_change_prefix_right_partial.
+Print Assumptions C08_change_prefix_right.
 
-Theorem C08_change_prefix_left_partial : forall bef aft tie r others b0,
+Theorem C08_change_prefix_left : forall bef aft tie r others b0,
   (forall e, In e others -> 0 <= r e) -> 0 <= b0 -> forall k : nat, 0 <= b0 - 1 - Z.of_nat k ->
   rsum (b0 - 1 - Z.of_nat k) (S k) (change bef aft tie r others b0) = delta_join bef aft tie r others b0 (b0 - 1 - Z.of_nat k).
 Proof. exact change_prefix_left. Qed.
-Print Assumptions C08_change_prefix_left_partial.
+Print Assumptions C08_change_prefix_left.
+
+(** the local search from one dense departure vector *)
+Theorem C08_bio_one : forall K n fuel r m r' s, mirror K -> (0 < n)%nat -> DenseTo n r m ->
+  bio_one fuel K n r = Some (r', s) ->
+  s = score_vec K n r' /\ s <= score_vec K n r /\ (exists m', DenseTo n r' m') /\ local_opt K n r' THR = true.
+Proof. exact bio_one_spec. Qed.
+Print Assumptions C08_bio_one.
+
+Theorem C08_bio_one_terminates : forall K n fuel r m, mirror K -> nonnegK K -> (0 < n)%nat -> DenseTo n r m ->
+  score_vec K n r < Z.of_nat fuel * THR -> exists res, bio_one fuel K n r = Some res.
+Proof. exact bio_one_terminates. Qed.
+Print Assumptions C08_bio_one_terminates.
+
+(** the whole algorithm: every returned ranking decodes a dense vector that passes the (sound) local-optimality
+    test, for the table of the dataset *)
+Theorem C08_bioconsert_local_optimum : forall fuel one s D deps sc rs,
+  valid s ->
+  let U := universe D in let n := length U in let K := cost_table s D in
+  (0 < n)%nat -> deps <> [] -> Forall (fun d => exists m, DenseTo n d m) deps ->
+  bioconsert_on fuel one s D deps = Some (sc, rs) ->
+  forall c, In c rs -> exists v m, c = decode_vec U v /\ DenseTo n v m /\ local_opt K n v THR = true.
+Proof.
+  intros fuel one s D deps sc rs Hv U n K Hn Hne HDs E c Hc.
+  destruct (bioconsert_on_spec fuel one s D deps sc rs Hv Hn Hne HDs E) as (_ & _ & _ & H).
+  destruct (H c Hc) as (v & m & E1 & E2 & _ & E4). exists v, m. split; [exact E1|]. split; [exact E2|exact E4].
+Qed.
+Print Assumptions C08_bioconsert_local_optimum.
+
+(** the departure vectors of the model are dense, and the judges' fuel always suffices *)
+Theorem C08_departures_dense : forall D,
+  (forall r, In r D -> NoDup (elems r) /\ Forall (fun b => b <> []) r) -> (0 < length (universe D))%nat ->
+  Forall (fun d => exists m, DenseTo (length (universe D)) d m) (departures_plain D) /\ departures_plain D <> [].
+Proof. exact departures_plain_dense. Qed.
+Print Assumptions C08_departures_dense.
+
+Theorem C08_bioconsert_terminates : forall one s D deps,
+  valid s ->
+  let U := universe D in let n := length U in let K := cost_table s D in
+  (0 < n)%nat -> Forall (fun d => exists m, DenseTo n d m) deps ->
+  exists res, bioconsert_on (fuel_for K n deps) one s D deps = Some res.
+Proof.
+  intros one s D deps Hv U n K Hn HDs. apply bioconsert_on_terminates; try assumption.
+  intros d Hd. apply fuel_for_enough. exact Hd.
+Qed.
+Print Assumptions C08_bioconsert_terminates.
